@@ -115,6 +115,7 @@ type ndRun struct {
 	part      []bool
 	stats     ndStats
 
+	lp        *ndLatePay
 	fatal     string
 	decisions []string
 	replay    []string
